@@ -148,8 +148,8 @@ namespace vh
 
     inline Stats& stats()
     {
-        static Stats s;
-        return s;
+        static Stats* s = new Stats;  // never destroyed: used from atexit handlers
+        return *s;
     }
 
     inline void write_file(const std::string& path, const std::vector<uint8_t>& bytes)
@@ -268,8 +268,8 @@ namespace vh
     }
     inline RunCfg& cfg()
     {
-        static RunCfg c;
-        return c;
+        static RunCfg* c = new RunCfg;
+        return *c;
     }
 
     // Runs one case, updates statistics; returns the outcome.
@@ -551,8 +551,8 @@ namespace vh
 {
     inline std::string& fuzz_out()
     {
-        static std::string p;
-        return p;
+        static std::string* p = new std::string;
+        return *p;
     }
     inline void fuzz_atexit()
     {
